@@ -29,7 +29,7 @@ EXTENDS Naturals, Sequences, FiniteSets, TLC, Json, IOUtils
 TraceLog == ndJsonDeserialize(IOEnv.TRACE)
 Protos == 1..5
 Binds == <<1, 2, 3, 4, 5, 2, 1, 2, 2>>   \* shape 8: a void(int) listener that itself enqueues further events; shape 9: one that throws (C09)
-Accepts == <<1, 2, 2, 3, 4, 5, 2>>
+Accepts == <<1, 2, 2, 3, 4, 5, 2, 2>>
 Callable == <<{1}, {2}, {3}, {4}, {5}, {2, 5}>>
 HasPayload(p) == p \in {3, 4, 5}
 
